@@ -17,7 +17,7 @@ def run(tier, rep, replay=None):
     for ci, (label, tags, env) in enumerate(CONFIGS):
         drv = C.go_build_driver(w, "c13", tags=tags)
         tp = os.path.join(w, "t-%s.ndjson" % label)
-        C.run([drv, "-out", tp, "-seed", str(C.SEED + ci), "-impl", label, "-traces", "60" if thorough else "5", "-steps", "16" if thorough else "13",
+        C.run([drv, "-out", tp, "-seed", str(C.SEED + ci), "-impl", label, "-traces", "240" if thorough else "5", "-steps", "16" if thorough else "13",
                "-pairings", "30" if thorough else "3"], env=dict(os.environ, **env), timeout=3300, what="c13 driver " + label)
         got = C.read_ndjson(tp)
         for x in got:
@@ -27,7 +27,7 @@ def run(tier, rep, replay=None):
         for ci, (label, tags, env) in enumerate(CONFIGS):
             tb = C.go_build_intree(w, pkg, tags=tags)
             tp = os.path.join(w, "i-%s-%s.ndjson" % (pkg.replace("/", "_"), label))
-            C.run([tb, "-test.run", "TestVerifGroup", "-test.count=1"], env=dict(os.environ, VERIF_OUT=tp, VERIF_SEED=str(C.SEED + ci), VERIF_IMPL=label, VERIF_TRACES="60" if thorough else "6",
+            C.run([tb, "-test.run", "TestVerifGroup", "-test.count=1"], env=dict(os.environ, VERIF_OUT=tp, VERIF_SEED=str(C.SEED + ci), VERIF_IMPL=label, VERIF_TRACES="240" if thorough else "6",
                   VERIF_STEPS="16" if thorough else "13", VERIF_TR0=str(1000000 * (pi + 1) + 100000 * ci), **env), timeout=3300, what="in-tree group recorder %s %s" % (pkg, label))
             lines += C.read_ndjson(tp)
     # shard whole sub-traces over parallel JVMs
@@ -85,6 +85,6 @@ def run(tier, rep, replay=None):
 
 MANIFEST = {
  "text": "GroupMachine.tla tracks, for every register, its coefficient modulo the group order (as BigNat, with untrusted quotient hints) through fixed-base, variable-base, addition, doubling, negation, double-scalar multiplication, decode(encode), pairings and products of pairings, and requires every observed equality / identity test (IsEqual and canonical bytes) to say exactly what the forms say; a toy curve of prime order is checked exhaustively to be a group generated by G with 'same element iff same form'. Recorders drive ecc/p384 (both back-ends), the internal edwards25519 group of sign/ed25519 (in package: signed-digit fixed-base multiplication, omega-NAF double-scalar multiplication, mixed additions), group.P256/P384/P521/ristretto255, Goldilocks, FourQ (x392), BLS12-381 G1/G2/Gt and Pair/ProdPair/ProdPairFrac with structured scalars of full width (0, 1, multiples of the order and neighbours, 2^k, maximum, recoding corner patterns), related points (P+P, P+(-P), Q=G, m=n, m=-n) and identity inputs; TLC validates every sub-trace.",
- "note": "Seeded sampling of operation sequences (5 sub-traces of 13 steps per group and configuration in quick, 60 x 16 in thorough). Hash-to-group membership is covered in C09/C16.",
+ "note": "Seeded sampling of operation sequences (5 sub-traces of 13 steps per group and configuration in quick, 240 x 16 in thorough). Hash-to-group membership is covered in C09/C16.",
  "technique": "TLA+ Z_L-module specification with BigNat; TLC trace validation of real group operations with untrusted quotient hints; toy-curve exhaustive check of the group law",
 }
